@@ -8,6 +8,8 @@ package main
 
 import (
 	"fmt"
+	"go/ast"
+	"go/constant"
 	"go/token"
 	"go/types"
 	"strings"
@@ -32,6 +34,7 @@ func checkC09(p *Prog, r *Report) {
 	yamlKeysRule(p, r, "C09.R9", []string{"CropParam", "CropDevelopmentStage"})
 	// effective and photoperiodic day length feed assimilation and development
 	solarClamps(p, r, "C09.R10")
+	c09HeaderCO2(p, r)
 	r.Note("not decided: finiteness and non-negativity of masses over whole growing seasons (multi-day state), phenology in calendar terms, anything about shipped parameter values")
 }
 
@@ -712,4 +715,67 @@ func c09AnnualStart(p *Prog, r *Report) {
 func mentionsCropState(c *Cond) bool {
 	t := c.Key()
 	return strings.Contains(t, "AKF") || strings.Contains(t, "FRUCHT") || strings.Contains(t, "DAUERKULT") || strings.Contains(t, "LINE1b[32]")
+}
+
+// ---------------------------------------------------------------- a CO2 concentration from the weather header is not a placeholder
+
+// c09HeaderCO2: the CO2 response (all methods) takes logarithms and ratios of the concentration; a negative value
+// gives NaN assimilation on warm days.  The third header line of a weather file may carry a concentration or a
+// placeholder ("-----", "-99.9").  Demanded: every call that spreads a header value over the years
+// (fillCO2Value with an argument parsed from the header) runs only under a test that excludes a leading minus sign of
+// the cell or a non-positive value.
+func c09HeaderCO2(p *Prog, r *Report) {
+	r.Rule("C09.R11", "a CO2 concentration taken from the weather file's header line is not a placeholder: the call that stores it is guarded by a test that excludes a leading '-' of the cell or a non-positive value", 2)
+	n := 0
+	for _, key := range []string{"hermes.WetterK", "hermes.ReadWeatherCSV", "hermes.ReadWeatherCZ", "hermes.WeatherDataShared.readStationLine", "hermes.WeatherDataShared.readGlobalValues"} {
+		fi := p.Funcs[key]
+		if fi == nil {
+			continue
+		}
+		info := fi.Pkg.TypesInfo
+		ast.Inspect(fi.Decl.Body, func(m ast.Node) bool {
+			c, ok := m.(*ast.CallExpr)
+			if !ok || len(c.Args) != 1 {
+				return true
+			}
+			se, ok := c.Fun.(*ast.SelectorExpr)
+			if !ok || se.Sel.Name != "fillCO2Value" {
+				return true
+			}
+			n++
+			arg := useObj(info, c.Args[0])
+			conds, _ := astPathConds(info, fi.Decl.Body, c)
+			good := false
+			for _, cd := range conds {
+				ast.Inspect(cd.E, func(q ast.Node) bool {
+					be, ok := q.(*ast.BinaryExpr)
+					if !ok {
+						return true
+					}
+					// cell[0] != '-'
+					if (be.Op == token.NEQ && !cd.Neg) || (be.Op == token.EQL && cd.Neg) {
+						for _, side := range []ast.Expr{be.X, be.Y} {
+							if tv, has := info.Types[side]; has && tv.Value != nil && tv.Value.ExactString() == "45" {
+								good = true
+							}
+						}
+					}
+					// value > 0 (or >= a positive constant)
+					if arg != nil && !cd.Neg {
+						if id, isId := ast.Unparen(be.X).(*ast.Ident); isId && info.Uses[id] == arg && (be.Op == token.GTR || be.Op == token.GEQ) {
+							if tv, has := info.Types[be.Y]; has && tv.Value != nil && (be.Op == token.GTR && constant.Sign(tv.Value) >= 0 || constant.Sign(tv.Value) > 0) {
+								good = true
+							}
+						}
+					}
+					return true
+				})
+			}
+			r.Ob("co2:header-not-placeholder:"+short(key), p.Pos(c.Pos()), good, fmt.Sprintf("the header's CO2 value is stored only for a cell without leading minus sign / a positive value: %v (conditions: %s)", good, clip(joinConds(conds), 160)))
+			return true
+		})
+	}
+	if n == 0 {
+		r.Ob("co2:header-not-placeholder", "-", false, "no reader stores a CO2 concentration from the weather header")
+	}
 }
